@@ -7,6 +7,7 @@ against the declarative `Reamber/Spec/Analysis.lean` (the same definitions the d
 implementation's output).
 -/
 import Reamber.Lemmas.AnalysisSpeed
+import Reamber.Lemmas.AnalysisChart
 import Reamber.Generated.Analysis
 
 namespace Reamber.Analysis
@@ -659,5 +660,186 @@ example : speedOkB true [⟨0, 100⟩, ⟨1000, 200⟩] [⟨-500, 1/2⟩, ⟨150
     [(-500, some (1/4)), (0, some (1/2)), (1000, some 1), (1500, some 3), (3000, some 3)] = true := by decide +kernel
 example : scrollSpeed false [⟨1000, 200⟩, ⟨0, 100⟩] [] 0 1500 (some 50)
     = some [(0, some 2), (1000, some 4), (1500, some 4)] := by decide +kernel
+
+/-! ### ties: which maximiser the code returns -/
+
+/-- **dominant_least.** Among the bpm values with maximal total active time `dominant_bpm` returns the LEAST one
+(`groupby` orders its keys ascending, `idxmax` takes the first maximum) - so the result is determined by the
+chart's content, ties included. -/
+theorem dominant_least (bpms : List Tp) (L : Rat) (hd : (bpms.map (·.time)).Nodup) (hL : ∀ p ∈ bpms, p.time ≤ L)
+    (v : Rat) (hv : dominantBpm bpms L = some v) : ∀ w, IsDominant bpms L w → v ≤ w := by
+  intro w hw
+  have hperm : (sortTp bpms).Perm bpms := sortTp_perm bpms
+  have hgs := groupSum_dominantRows bpms L hd hL
+  unfold dominantBpm at hv
+  rw [hgs] at hv
+  have hsorted : ((groupKeys ((sortTp bpms).map (·.bpm))).map (fun k => (k, totalTime bpms L k))).Pairwise
+      (fun a b => a.1 ≤ b.1) := by
+    rw [List.pairwise_map]
+    exact sortRat_sorted _
+  obtain ⟨⟨p, hp, hpw⟩, hmax⟩ := hw
+  have hwk : w ∈ groupKeys ((sortTp bpms).map (·.bpm)) := by
+    rw [mem_groupKeys, List.mem_map]
+    exact ⟨p, hperm.mem_iff.mpr hp, hpw⟩
+  refine idxmax_least hsorted hv (w, totalTime bpms L w) (List.mem_map.mpr ⟨w, hwk, rfl⟩) ?_
+  intro r hr
+  obtain ⟨k, hk, rfl⟩ := List.mem_map.mp hr
+  rw [mem_groupKeys, List.mem_map] at hk
+  obtain ⟨q, hq, rfl⟩ := hk
+  exact hmax q (hperm.mem_iff.mp hq)
+
+/-- when one value has the strictly greatest total, that value is the result -/
+theorem dominant_unique (bpms : List Tp) (L : Rat) (hne : bpms ≠ []) (hd : (bpms.map (·.time)).Nodup)
+    (hL : ∀ p ∈ bpms, p.time ≤ L) (v : Rat) (huniq : ∀ w, IsDominant bpms L w → w = v) :
+    dominantBpm bpms L = some v := by
+  obtain ⟨u, hu, hdom⟩ := dominant_is_max bpms L hne hd hL
+  rw [hu, huniq u hdom]
+
+example : dominantBpm [⟨1000, 200⟩, ⟨0, 100⟩, ⟨1500, 100⟩, ⟨2000, 200⟩] 3000 = some 100 ∧
+    IsDominant [⟨1000, 200⟩, ⟨0, 100⟩, ⟨1500, 100⟩, ⟨2000, 200⟩] 3000 200 := by
+  constructor
+  · decide +kernel
+  · rw [← isDominantB_iff]; decide +kernel
+
+/-! ### the order of the tempo rows never matters -/
+
+theorem totalTime_perm {b b' : List Tp} (h : b.Perm b') (L v : Rat) : totalTime b L v = totalTime b' L v := by
+  unfold totalTime
+  have hts : (b.map (·.time)).Perm (b'.map (·.time)) := h.map _
+  have hf : (fun p : Tp => span (b.map (·.time)) L p.time) = fun p => span (b'.map (·.time)) L p.time := by
+    funext p; exact span_perm hts L p.time
+  rw [hf]
+  exact sumRat_perm ((h.filter _).map _)
+
+theorem isDominant_perm {b b' : List Tp} (h : b.Perm b') (L v : Rat) : IsDominant b L v ↔ IsDominant b' L v := by
+  unfold IsDominant
+  simp only [totalTime_perm h]
+  constructor
+  · rintro ⟨⟨p, hp, e⟩, hm⟩
+    exact ⟨⟨p, h.mem_iff.mp hp, e⟩, fun q hq => hm q (h.mem_iff.mpr hq)⟩
+  · rintro ⟨⟨p, hp, e⟩, hm⟩
+    exact ⟨⟨p, h.mem_iff.mpr hp, e⟩, fun q hq => hm q (h.mem_iff.mp hq)⟩
+
+/-- **dominant_perm_invariant.** `dominant_bpm` depends on the tempo points as a SET: any two row orders of the
+same tempo points give the same result (ties included: the least maximiser either way). -/
+theorem dominant_perm_invariant {b b' : List Tp} (h : b.Perm b') (L : Rat) (hd : (b.map (·.time)).Nodup)
+    (hL : ∀ p ∈ b, p.time ≤ L) : dominantBpm b L = dominantBpm b' L := by
+  have hd' : (b'.map (·.time)).Nodup := (h.map (·.time)).nodup_iff.mp hd
+  have hL' : ∀ p ∈ b', p.time ≤ L := fun p hp => hL p (h.mem_iff.mpr hp)
+  by_cases hne : b = []
+  · subst hne
+    rw [List.nil_perm.mp h]
+  · have hne' : b' ≠ [] := fun e => hne (by subst e; exact List.perm_nil.mp h)
+    obtain ⟨v, hv, hdom⟩ := dominant_is_max b L hne hd hL
+    obtain ⟨v', hv', hdom'⟩ := dominant_is_max b' L hne' hd' hL'
+    have h1 : v ≤ v' := dominant_least b L hd hL v hv v' ((isDominant_perm h L v').mpr hdom')
+    have h2 : v' ≤ v := dominant_least b' L hd' hL' v' hv' v ((isDominant_perm h L v).mp hdom)
+    rw [hv, hv', le_antisymm h1 h2]
+
+/-! ### chart level: first / last object are the bounds of `m.stack().offset` - the hypotheses about `last` and
+about SVs before the first object are theorems, not assumptions -/
+
+/-- the bounds are the least / greatest stacked offset -/
+theorem chart_bounds_spec (c : Chart) (lo hi : Rat) (h : c.bounds = some (lo, hi)) :
+    (∀ x ∈ c.stackOffsets, lo ≤ x ∧ x ≤ hi) ∧ lo ∈ c.stackOffsets ∧ hi ∈ c.stackOffsets := by
+  unfold Chart.bounds at h
+  generalize c.stackOffsets = l at h
+  cases l with
+  | nil => simp at h
+  | cons a t =>
+    simp only [Option.some.injEq, Prod.mk.injEq] at h
+    obtain ⟨rfl, rfl⟩ := h
+    exact ⟨fun x hx => ⟨(foldl_rmin_spec t a).1 x hx, (foldl_rmax_spec t a).1 x hx⟩,
+      (foldl_rmin_spec t a).2, (foldl_rmax_spec t a).2⟩
+
+/-- a chart with a tempo point has bounds; every tempo point is at or before the last object, and (games with
+SVs) no SV is before the first object -/
+theorem chart_bounds_cover (c : Chart) (hne : c.bpms ≠ []) :
+    ∃ lo hi, c.bounds = some (lo, hi) ∧ (∀ p ∈ c.bpms, p.time ≤ hi) ∧
+      (c.hasSv = true → ∀ s ∈ c.svs, lo ≤ s.time) := by
+  obtain ⟨p0, hp0⟩ := List.exists_mem_of_ne_nil c.bpms hne
+  have hmem0 : p0.time ∈ c.stackOffsets := by
+    unfold Chart.stackOffsets
+    exact List.mem_append_left _ (List.mem_append_right _ (List.mem_map_of_mem hp0))
+  cases hb : c.bounds with
+  | none =>
+    unfold Chart.bounds at hb
+    generalize c.stackOffsets = l at hb hmem0
+    cases l with
+    | nil => simp at hmem0
+    | cons a t => simp at hb
+  | some b =>
+    obtain ⟨lo, hi⟩ := b
+    obtain ⟨hall, _, _⟩ := chart_bounds_spec c lo hi hb
+    refine ⟨lo, hi, rfl, ?_, ?_⟩
+    · intro p hp
+      refine (hall p.time ?_).2
+      unfold Chart.stackOffsets
+      exact List.mem_append_left _ (List.mem_append_right _ (List.mem_map_of_mem hp))
+    · intro hsv s hs
+      refine (hall s.time ?_).1
+      unfold Chart.stackOffsets
+      rw [hsv]
+      exact List.mem_append_right _ (List.mem_map_of_mem hs)
+
+/-- the tempo list is inside the quantifier of the property: one tempo point, no two at one time, bpm ≠ 0 -/
+theorem tempoOkB_iff (bpms : List Tp) :
+    tempoOkB bpms = true ↔ bpms ≠ [] ∧ (bpms.map (·.time)).Nodup ∧ ∀ p ∈ bpms, p.bpm ≠ 0 := by
+  cases bpms <;> simp [tempoOkB]
+
+/-- **chart_answer_spec.** For EVERY chart with a valid tempo list (notes, SVs anywhere; no further hypothesis)
+and every call (dominant bpm / scroll speed / SV normalisation, override absent or ≠ 0) the model's answer is
+right for that chart, with first / last object = the least / greatest offset `m.stack()` ranges over. -/
+theorem chart_answer_spec (c : Chart) (q : Call) (hok : tempoOkB c.bpms = true)
+    (hov : ∀ b, q.override = some b → b ≠ 0) : AnswerOk c q (c.answer q) := by
+  obtain ⟨hne, hd, hb⟩ := (tempoOkB_iff c.bpms).mp hok
+  obtain ⟨lo, hi, hbd, hL, hmins⟩ := chart_bounds_cover c hne
+  refine ⟨lo, hi, hbd, ?_⟩
+  cases q with
+  | dominant =>
+    obtain ⟨v, hv, hdom⟩ := dominant_is_max c.bpms hi hne hd hL
+    exact ⟨v, by simp [Chart.answer, Chart.dominantBpm, hbd, hv], hdom⟩
+  | speed ov =>
+    obtain ⟨ref, out, hout, href, hspec⟩ := scroll_speed_spec c.hasSv c.bpms c.svs lo hi ov hne hd hL hov hmins
+    exact ⟨ref, out, by simp [Chart.answer, Chart.scrollSpeed, hbd, hout], href, hspec⟩
+  | normalize ov =>
+    obtain ⟨ref, out, hout, href, hspec⟩ := sv_normalize_correct c.bpms hi ov hne hd hL hb hov
+    exact ⟨ref, out, by simp [Chart.answer, Chart.svNormalize, hbd, hout], href, hspec⟩
+
+/-- **session_spec.** Results depend on the chart's CURRENT content, not on what an earlier call saw: in a session
+of any number of calls on one chart with arbitrary edits in between, every answer is the answer for the chart as
+it is at the time of that call, and it is right for that chart whenever that chart is inside the quantifier. -/
+theorem session_spec (steps : List (Call × (Chart → Chart))) : ∀ (c : Chart),
+    ∀ x ∈ runSession c steps, x.2.2 = x.1.answer x.2.1 ∧
+      (tempoOkB x.1.bpms = true → (∀ b, x.2.1.override = some b → b ≠ 0) → AnswerOk x.1 x.2.1 x.2.2) := by
+  induction steps with
+  | nil => intro c x hx; simp [runSession] at hx
+  | cons s rest ih =>
+    intro c x hx
+    obtain ⟨q, e⟩ := s
+    simp only [runSession, List.mem_cons] at hx
+    rcases hx with rfl | hx
+    · exact ⟨rfl, fun hok hov => chart_answer_spec c q hok hov⟩
+    · exact ih (e c) x hx
+
+/-- the charts a session passes through are the edits applied in turn (nothing else feeds into a call) -/
+theorem session_charts (steps : List (Call × (Chart → Chart))) : ∀ (c : Chart),
+    (runSession c steps).map (·.1) = (List.range steps.length).map
+      (fun i => ((steps.take i).map (·.2)).foldl (fun acc e => e acc) c) := by
+  induction steps with
+  | nil => intro c; simp [runSession]
+  | cons s rest ih =>
+    intro c
+    obtain ⟨q, e⟩ := s
+    simp only [runSession, List.map_cons, List.length_cons, List.range_succ_eq_map, List.map_map, ih (e c)]
+    simp [Function.comp_def]
+
+/-! non-vacuity: the stale-state shape of a session (call, move the last note from 1500 to 5000, call again): the
+dominant bpm changes from 100 to 200 with the content -/
+example : (runSession ⟨true, [⟨0, 100⟩, ⟨1000, 200⟩], [⟨250, 2⟩], [0, 1500]⟩
+      [(.dominant, fun c => { c with notes := [0, 5000] }), (.dominant, id)]).map (·.2.2)
+    = [.bpm (some 100), .bpm (some 200)] := by decide +kernel
+example : (⟨true, [⟨-3000, 100⟩, ⟨-2000, 200⟩], [], [-3000, 0]⟩ : Chart).bounds = some (-3000, 0) ∧
+    (⟨true, [⟨-3000, 100⟩, ⟨-2000, 200⟩], [], [-3000, 0]⟩ : Chart).dominantBpm = some 200 := by decide +kernel
 
 end Reamber.Analysis
